@@ -35,6 +35,12 @@ Theorem C08_budget_accepted : forall rl env prog fixed batch fn sb,
 Proof. exact argmax_batch_accepted. Qed.
 Print Assumptions C08_budget_accepted.
 
+(* CMD is only ever run on paths: no invocation consists of the fixed arguments alone - also when a path does not fit behind them *)
+Theorem C08_no_empty_invocation : forall execdir budget ok es,
+  Forall (fun r => snd r <> []) (runs (ExecMulti.run execdir budget ok es)).
+Proof. exact run_never_empty. Qed.
+Print Assumptions C08_no_empty_invocation.
+
 (* non-vacuity: -execdir over d1/{a,b}, d2/{c}; budget for two paths per invocation *)
 Example C08_witness :
   let mk i p := {| eid := i; ecost := 12; esingle := true; eparent := Some p; reached := true |} in
